@@ -1,5 +1,7 @@
 import XjsModel.Proofs.RaTerm
 import XjsModel.Proofs.LexPrintAll
+import XjsModel.Proofs.LexPrintSane
+import XjsModel.Proofs.LexPrintRound
 import XjsModel.Props.TableObligations
 /-
   C03 — Printed code parses back to the tree it was printed from.
@@ -28,13 +30,14 @@ import XjsModel.Props.TableObligations
   lex to exactly `toks` (type and literal of every token, then end of input) — no token fusion (the class of the
   repaired defects ebb5d69, aca1392), for every tree whose tokens are lexically sane (`LP.saneB`: operators, delimiters
   and keywords carry their spelling, identifiers are identifiers, number / string / backtick literals re-lex as
-  themselves — decidable sufficient conditions: `numOk_decimal`, `strOk_plain`, `rawOk_plain`; the property name of a
+  themselves — decidable sufficient conditions: `numOk_decimal`, `numOk_fraction`, `strOk_plain`, `rawOk_plain`; the property name of a
   member access does not start with a digit). The writer invariant `LP.WInv` carries a FOLLOW predicate (what may stand
   behind the text written so far without being drawn into its last token) and the fact that a sign which the predicate
   rejects is the last byte written, which is what `separateSigns` tests.
-  The re-lexed tokens carry no line break and no comment (`compact_text_lexes_to_quiet_tokens`).
-  Not proved: that the positions of the re-lexed tokens do not matter to the parser, and the round trip of the tree whose
-  after-newline flags are cleared (the print → lex and the print → parse theorems meet at the token keys); pretty mode (incl. `WithSemi(false)`), trees outside `wf`. Those are decided by the
+  The re-lexed tokens carry no line break and no comment (`compact_text_lexes_to_quiet_tokens`), parsing commutes with
+  erasing token positions (`parsing_ignores_positions`, one more pass over the mutual block), and so the end-to-end
+  statement holds: `compact_text_parses_back_to_the_tree`.
+  Not proved: pretty mode (incl. `WithSemi(false)`), trees outside `wf`. Those are decided by the
   correspondence run (PRINTT stream: programmatic trees, exhaustive parent/child pairs) and the model-free re-parse oracle.
   Known findings there: stmt-start-object-or-function, dangling-else, printer-paren-function-indent, trim-in-literal.
 -/
@@ -96,11 +99,39 @@ theorem separate_signs_is_enough (cw : CW) (ks : List LP.Key) (fc : Bytes → Bo
     ∃ fc1, LP.WInv (cw.separateSigns (c :: w)) ks fc1 ∧ (∀ r, fc1 (c :: r) = true) ∧ LP.StartOK fc1 :=
   LP.sep_lex h hst c w hc
 
+/-- PRINT → LEX → PARSE, compact mode, end to end: for every well-formed program tree with lexically sane tokens that
+    carry no positions / line-break flags / comments (programmatic trees; a parsed tree after erasing its trivia), in each
+    of the four parser modes and for every compact option set: the parser, run on the TEXT the compiler emits, returns —
+    without any error — a tree that is the original one once the positions of its tokens are set to zero.
+    (`compact_text_lexes4` ∘ `Pos.pos_parseProgram`: parsing commutes with erasing positions ∘ `printed_program_round_trip`,
+    and the parser terminates.) -/
+theorem compact_text_parses_back_to_the_tree (tolerant smart : Bool) (ccfg : CompCfg) (hc : ccfg.pretty = false) (prog : SSList)
+    (hw : prog.wf = true) (hterm : prog.term = true) (hs : LP.saneB prog) (hn : ∀ t ∈ prog.toks, LP.normalTok t) :
+    ∃ r, parseSource { tolerant := tolerant, smart := smart } (compile ccfg prog.tree).code = some r ∧
+      Pos.stmtListZ r.prog = prog.tree ∧ r.errors = [] ∧ r.hasErr = false :=
+  LP.compact_round_trip tolerant smart ccfg hc prog hw hterm hs hn
+
+/-- parsing commutes with erasing token positions: the parser reads of a token only its type, literal and after-newline
+    flag; positions are copied into the tree, the error ranges and the trace -/
+theorem parsing_ignores_positions (cfg : PCfg) (toks : List Token) (r : ParseResult) (h : parseProgram cfg toks = some r) :
+    parseProgram cfg (toks.map Pos.tokZ) =
+      some { prog := Pos.stmtListZ r.prog, errors := r.errors.map Pos.errZ, hasErr := r.hasErr, final := Pos.psZ r.final } :=
+  Pos.pos_parseProgram toks r h
+
+/-- for trees that come out of the parser the spelling part of the sanity hypothesis is automatic: whatever the lexer
+    returns for a type with a fixed spelling (operators, delimiters, keywords) carries that spelling, and an IDENT token is
+    a letter followed by letters and digits and no keyword — from any cursor, on any input -/
+theorem tokens_from_the_lexer_are_spelled (s : LS) :
+    (LP.canon (nextToken s).1.type ≠ [] → (nextToken s).1.lit = LP.canon (nextToken s).1.type) ∧
+    ((nextToken s).1.type = .ident → LP.identOk (nextToken s).1.lit = true) :=
+  LP.nextToken_sane s
+
 /-- sufficient, decidable conditions for the literal hypotheses -/
 theorem literal_sanity_conditions :
-    (∀ w, LP.decimalLit w = true → LP.numOk w .int) ∧ (∀ v, LP.plainStr v = true → LP.strOk v) ∧
-    (∀ v, LP.plainRaw v = true → LP.rawOk v) :=
-  ⟨LP.numOk_decimal, LP.strOk_plain, LP.rawOk_plain⟩
+    (∀ w, LP.decimalLit w = true → LP.numOk w .int) ∧
+    (∀ d1 d2, LP.fractionLit d1 d2 = true → LP.numOk (d1 ++ 46 :: d2) .float) ∧
+    (∀ v, LP.plainStr v = true → LP.strOk v) ∧ (∀ v, LP.plainRaw v = true → LP.rawOk v) :=
+  ⟨LP.numOk_decimal, LP.numOk_fraction, LP.strOk_plain, LP.rawOk_plain⟩
 
 /-- the modes the theorems cover: the four combinations of strict / tolerant and smart semicolons -/
 theorem all_modes_are_base (tolerant smart : Bool) : BaseCfg { tolerant := tolerant, smart := smart } :=
@@ -176,6 +207,7 @@ example : LP.saneB prog2 := by
     ⟨hk _ (by decide) (by decide) (by decide) (by decide) (by decide) (by decide), hx,
       hk _ (by decide) (by decide) (by decide) (by decide) (by decide) (by decide), hx,
       hk _ (by decide) (by decide) (by decide) (by decide) (by decide) (by decide), hx⟩, trivial⟩
+example : ∀ t ∈ prog2.toks, LP.normalTok t := by decide
 /-- the text is `let x=1;x=x- -x;` (the blank keeps the two signs apart) -/
 example : (compile {} prog2.tree).code = [108, 101, 116, 32, 120, 61, 49, 59, 120, 61, 120, 45, 32, 45, 120, 59] := by decide +kernel
 
@@ -183,8 +215,11 @@ end Xjs.C03
 
 #print axioms Xjs.C03.compact_text_lexes_to_printed_tokens
 #print axioms Xjs.C03.compact_text_lexes_to_quiet_tokens
+#print axioms Xjs.C03.compact_text_parses_back_to_the_tree
+#print axioms Xjs.C03.parsing_ignores_positions
 #print axioms Xjs.C03.expression_text_lexes
 #print axioms Xjs.C03.separate_signs_is_enough
+#print axioms Xjs.C03.tokens_from_the_lexer_are_spelled
 #print axioms Xjs.C03.literal_sanity_conditions
 #print axioms Xjs.C03.printed_tokens_parse_back
 #print axioms Xjs.C03.printed_statement_parses_back
